@@ -240,6 +240,10 @@ func rotateOnce(r *kernel.Run, w *World, cfg rootCfg, reinit, skip bool, fromEmp
 	missing := berr != nil || before == nil || before.Current == nil || before.Next == nil
 	now := time.Now()
 	opts := w.Opts(cfg.opts()...)
+	if fromEmptyHistory && missing {
+		// bootstrap: the application attaches state to the roots record once; later calls pass none
+		opts = append(opts, nodeenrollment.WithState(mkStruct(r, 2)))
+	}
 	if reinit {
 		opts = append(opts, nodeenrollment.WithReinitializeRoots(true))
 	}
@@ -277,7 +281,9 @@ func rotateOnce(r *kernel.Run, w *World, cfg rootCfg, reinit, skip bool, fromEmp
 		if lerr != nil {
 			r.Violate("roots-durable", "roots-not-stored", "%s: call succeeded but roots cannot be loaded: %v", where, lerr)
 		}
-		if !proto.Equal(stored, got) {
+		// "storage and the return value hold the same two roots": the roots are compared, not the application state kept
+		// on the record (a call that is handed WithState stores it without echoing it)
+		if !proto.Equal(stored.GetCurrent(), got.GetCurrent()) || !proto.Equal(stored.GetNext(), got.GetNext()) {
 			r.Violate("roots-durable", "roots-stored-differs", "%s: stored roots differ from the returned ones", where)
 		}
 	}
@@ -447,6 +453,11 @@ func propC08(r *kernel.Run) {
 		default:
 			rec.Current = makeRoot(nodeenrollment.CurrentId, at(0), at(1))
 			rec.Next = makeRoot(nodeenrollment.NextId, at(2), at(3))
+			if tp.Draw(2) == 0 {
+				// the application keeps state on the roots record: whatever the call does, what it returns is what is stored
+				rec.State = mkStruct(r, 2)
+				r.Count("cfg.roots_record_with_state", 1)
+			}
 		}
 		switch {
 		case kind == 0:
